@@ -63,7 +63,7 @@ type batch struct {
 }
 
 func (*prop) Cases(seed int64, tier string) []core.Case {
-	total, per := 600, 100
+	total, per := 2400, 150
 	if tier == "thorough" {
 		total, per = 24000, 300
 	}
